@@ -17,6 +17,10 @@ RULE = (
     "exh: every labelled digraph on n<=4 nodes incl. self-loops as (n, edge bitmask) [thorough: + all loop-free digraphs on 5 nodes]; "
     "random: 1-40 nodes, drawn edge list (may mention nodes outside allitems), drawn allitems order and two drawn hash assignments. "
     "Non-trivial: graph has >=1 edge among the items and is neither a DAG whose allitems order is already topological nor a single self-loop; "
+    "tables / tables_exh: the callers in sql/ddl.py (sort_tables_and_constraints, sort_tables, MetaData.sorted_tables) over 2-6 tables with drawn foreign keys "
+    "(plain / use_alter, self-referential, parallel), explicit dependencies through Table.add_is_dependent_on and extra_dependencies= (half of them on FK pairs), "
+    "drawn input order; exhaustively all FK-pair subsets on 3 tables x explicit dependency sets. Non-trivial there: explicit and FK dependencies both present and "
+    "(a cycle or >=3 dependency pairs); "
     "distinct = canonical JSON of the case"
 )
 ASSUMPTIONS = [
@@ -203,8 +207,142 @@ def check_random(case, ctx):
     _check_graph(case["n"], list(case["order"]), edges, case["ha"], case["hb"], ctx, {"n": case["n"], "order": case["order"], "edges": case["edges"]})
 
 
+# ------------------------------------------------------------------------------------ callers: sql/ddl.py table sorting
+def _has_cycle(nodes, edges):
+    reach = _closure(nodes, edges)
+    return any(n in reach[n] for n in nodes)
+
+
+def check_tables(case, ctx):
+    """sort_tables_and_constraints / sort_tables / MetaData.sorted_tables (the callers named in the property's anchors) over generated
+    foreign-key graphs with explicit dependencies (Table.add_is_dependent_on, extra_dependencies=).  Validity predicate, not one expected order."""
+    import warnings
+
+    from sqlalchemy import Column, ForeignKeyConstraint, Integer, MetaData, Table
+    from sqlalchemy import exc as sa_exc
+    from sqlalchemy.sql.ddl import sort_tables, sort_tables_and_constraints
+
+    n = case["n"]
+    md = MetaData()
+    fks = [tuple(f) for f in case["fks"]]  # (child, parent, use_alter)
+    tables = []
+    for i in range(n):
+        cols = [Column("id", Integer, primary_key=True)]
+        cons = []
+        for k, (c, p_, ua) in enumerate(fks):
+            if c == i:
+                cols.append(Column(f"f{k}", Integer))
+                cons.append(ForeignKeyConstraint([f"f{k}"], [f"t{p_}.id"], name=f"fk{k}", use_alter=bool(ua)))
+        tables.append(Table(f"t{i}", md, *cols, *cons))
+    by = {t.name: t for t in tables}
+    dep_attr = [tuple(d) for d in case["dep_attr"]]  # (parent, child) through Table.add_is_dependent_on
+    dep_arg = [tuple(d) for d in case["dep_arg"]]  # (parent, child) through extra_dependencies=
+    for p_, c in dep_attr:
+        by[f"t{c}"].add_is_dependent_on(by[f"t{p_}"])
+    order = [tables[i] for i in case["order"]]
+    extra = [(by[f"t{p_}"], by[f"t{c}"]) for p_, c in dep_arg]
+    fixed = [(p_, c) for p_, c in dep_attr + dep_arg if p_ != c]
+    mutable = [(p_, c) for c, p_, ua in fks if not ua and p_ != c]
+    nodes = list(range(n))
+    fixed_cyclic = _has_cycle(nodes, fixed) or any(p_ == c for p_, c in dep_attr + dep_arg)
+    all_cyclic = _has_cycle(nodes, fixed + mutable)
+    ctx.note(case, bool(fixed) and bool(mutable) and (all_cyclic or len(fixed) + len(mutable) >= 3),
+             classes=["tables", "fk-cycle" if all_cyclic else "acyclic", "explicit-deps" if fixed else "no-explicit-deps",
+                      "explicit-dep-on-fk-pair" if set(fixed) & set(mutable) else "explicit-dep-elsewhere", "explicit-cycle" if fixed_cyclic else "explicit-acyclic"])
+
+    def run():
+        with warnings.catch_warnings():
+            warnings.simplefilter("ignore")
+            try:
+                return "ok", sort_tables_and_constraints(list(order), extra_dependencies=extra or None)
+            except sa_exc.CircularDependencyError as e:
+                return "cycle", e
+
+    kind, res = run()
+    if fixed_cyclic:
+        if kind != "cycle":
+            raise Violation("C19/tables/explicit-cycle-not-reported", f"the explicit dependencies {fixed} contain a cycle but sort_tables_and_constraints returned an order")
+        return
+    if kind == "cycle":
+        raise Violation("C19/tables/spurious-cycle", f"CircularDependencyError although the non-removable dependencies {fixed} are acyclic (fks {fks})")
+    if res[-1][0] is not None:
+        raise Violation("C19/tables/shape", "last entry is not (None, remaining)")
+    names = [t.name for t, _ in res[:-1]]
+    if sorted(names) != sorted(t.name for t in order):
+        raise Violation("C19/tables/not-a-permutation", f"sorted tables {names} are not a permutation of the input {[t.name for t in order]}")
+    pos = {nm: i for i, nm in enumerate(names)}
+    remaining = set(res[-1][1])
+    seen_fk = list(remaining)
+    for t, fkcs in res[:-1]:
+        for f in fkcs:
+            seen_fk.append(f)
+            if f.parent is not t:
+                raise Violation("C19/tables/fk-listed-under-other-table", f"{f.name} listed under {t.name}")
+            if f.referred_table is not t and pos[f.referred_table.name] > pos[t.name]:
+                raise Violation("C19/tables/inline-fk-before-referred-table", f"{f.name} of {t.name} is kept inline but {f.referred_table.name} sorts later: {names}")
+    allfk = [f for t in tables for f in t.foreign_key_constraints]
+    if sorted(f.name for f in seen_fk) != sorted(f.name for f in allfk):
+        raise Violation("C19/tables/fk-lost-or-duplicated", f"constraints delivered {sorted(f.name for f in seen_fk)} != defined {sorted(f.name for f in allfk)}")
+    for f in allfk:
+        if f.use_alter and f not in remaining:
+            raise Violation("C19/tables/use_alter-kept-inline", f"{f.name}")
+    for p_, c in fixed:
+        if pos[f"t{p_}"] > pos[f"t{c}"]:
+            raise Violation("C19/tables/explicit-dependency-violated", f"explicit dependency t{p_} -> t{c} not respected: {names} (fks {fks}, explicit {fixed})")
+    if not all_cyclic:
+        extra_removed = [f.name for f in remaining if not f.use_alter]
+        if extra_removed:
+            raise Violation("C19/tables/fk-removed-without-cycle", f"{extra_removed} deferred although the dependency graph is acyclic")
+    # determinism + the convenience wrappers agree
+    kind2, res2 = run()
+    if kind2 != "ok" or [t.name for t, _ in res2[:-1]] != names:
+        raise Violation("C19/tables/non-deterministic", "second call gave a different order")
+    with warnings.catch_warnings():
+        warnings.simplefilter("ignore")
+        st_names = [t.name for t in sort_tables(list(order), extra_dependencies=extra or None)]
+        if st_names != names:
+            raise Violation("C19/tables/sort_tables-differs", f"sort_tables {st_names} != sort_tables_and_constraints {names}")
+        if not dep_arg:
+            md_names = [t.name for t in md.sorted_tables]
+            mpos = {nm: i for i, nm in enumerate(md_names)}
+            for p_, c in fixed:
+                if mpos[f"t{p_}"] > mpos[f"t{c}"]:
+                    raise Violation("C19/tables/explicit-dependency-violated", f"MetaData.sorted_tables {md_names} ignores explicit dependency t{p_} -> t{c}")
+
+
+@st.composite
+def _table_graphs(draw):
+    n = draw(st.integers(2, 6))
+    node = st.integers(0, n - 1)
+    fks = draw(st.lists(st.tuples(node, node, st.sampled_from([0, 0, 0, 1])).map(list), max_size=8))
+    pair = st.tuples(node, node).map(list)
+    # explicit dependencies: half of the time drawn from the FK pairs themselves (the pair a cycle-breaking step touches)
+    fkpairs = [[p_, c] for c, p_, _ in fks if p_ != c]
+    src = st.sampled_from(fkpairs) if fkpairs and draw(st.booleans()) else pair
+    dep_attr = draw(st.lists(src, max_size=3))
+    dep_arg = draw(st.lists(src, max_size=2))
+    return {"n": n, "fks": fks, "dep_attr": dep_attr, "dep_arg": dep_arg, "order": draw(st.permutations(list(range(n))))}
+
+
+def _table_exh(tier):
+    # every FK-pair subset on 3 tables x explicit dependency sets of size <= 2 (quick: size <= 1), two input orders
+    import itertools
+
+    pairs = [(a, b) for a in range(3) for b in range(3) if a != b]
+    for mask in range(1 << len(pairs)):
+        fks = [[c, p_, 0] for k, (c, p_) in enumerate(pairs) if mask >> k & 1]
+        for r in (1, 2) if tier != "quick" else (1,):
+            for deps in itertools.combinations(pairs, r):
+                for how in (0, 1):
+                    for order in ([0, 1, 2], [2, 1, 0]):
+                        d = [list(x) for x in deps]
+                        yield {"n": 3, "fks": fks, "dep_attr": d if how == 0 else [], "dep_arg": d if how == 1 else [], "order": order}
+
+
 def subs(tier):
     return [
         Enumerated("exh", check_exh, cases=_exh_cases),
+        Enumerated("tables_exh", check_tables, cases=_table_exh),
         Generated("random", check_random, strategy=_graphs(), quick=3000, thorough=200000),
+        Generated("tables", check_tables, strategy=_table_graphs(), quick=3000, thorough=150000),
     ]
